@@ -11,6 +11,7 @@ PROPS = {
                       {"harness": "boolgp", "args": ["--scope", "S1", "--nmax", 4, "--k", 8, "--board", "aligned"]},
                       {"harness": "boolgp", "args": ["--scope", "S0", "--nmin", 4, "--nmax", 6, "--k", 8, "--board", "aligned", "--cliponly", 1]},
                       {"harness": "boolgp", "args": ["--scope", "S0", "--nmin", 4, "--nmax", 5, "--k", 16, "--both", 1, "--board", "aligned"]},
+                      {"harness": "boolgp", "args": ["--scope", "S1", "--nmax", 3, "--k", 8, "--board", "flat"]},
                       {"harness": "boolgp", "args": ["--scope", "S3", "--nmax", 3]},
                       {"harness": "boolgp", "args": ["--scope", "S5"], "shards": 6}],
             "thorough": [{"harness": "boolgp", "args": ["--scope", "S1", "--nmax", 5]},
@@ -22,7 +23,7 @@ PROPS = {
                          {"harness": "boolgp", "args": ["--scope", "S2", "--nmax", 4]},
                          {"harness": "boolgp", "args": ["--scope", "S4"]}],
         },
-        "rule": "(generic board, and an 'aligned' board whose points share x / y coordinates so that vertical and horizontal edges occur) every rotation-normalised ordered tuple of distinct board-G points as subject polygon x the same over the clip board, both orientations, self-intersecting included; "
+        "rule": "(generic board, an 'aligned' board whose points share x / y coordinates so that vertical and horizontal edges occur, and 'flat' boards - coordinates 10^5..10^6, clip edges flatter than 1:200 crossing a steep subject edge 0.002 units from the scanline of a far-away vertex, every triangle pair) every rotation-normalised ordered tuple of distinct board-G points as subject polygon x the same over the clip board, both orientations, self-intersecting included; "
                 "plus single (mostly self-intersecting) subject paths of 4..6 vertices without clip path, over the 8 subject points and over all 16 points of the aligned boards; x 4 clip types x 4 fill rules x PreserveCollinear x ReverseSolution x HI_PRECISION; inputs failing the exact general-position filter are skipped and counted; "
                 "plus 127..257 nested squares of one orientation beside a clip triangle (winding numbers up to 257); a case is non-trivial when the closed solution is non-empty and differs from both input path sets",
         "level_text": "Every input of the scope is executed on the real library and the result is compared, at every point of the plane outside the stated tolerance band (quadtree region engine, exact winding numbers), with the region defined by fill rule and clip type.",
